@@ -136,6 +136,12 @@ def pmap(func, items, limit=20.0):
         return pool.map(g, items, chunksize=max(1, min(256, len(items) // (NCPU * 8))))
 
 
+def confirm_hang(func, item, limit=12.0):
+    """An item that hit the per-item time limit inside the loaded worker pool is run again alone, in this process, with a
+    generous limit: only a call that still does not return is reported as non-terminating (a busy machine is not a hang)."""
+    return _Guarded(func, limit)(item)
+
+
 # --------------------------------------------------------------------------
 # build steps
 class BuildLock(object):
